@@ -13,6 +13,15 @@ CHECKS = {
  "C08": (True, "E1", "exploration", E1,
   "Every (length, size, hop, pad, item kind, calling route) within the bound is executed on the real blocks / Stream.blocks / zero_pad and compared with the statement written as a list comprehension; exhaustive inside the bound, nothing sampled.",
   "Small-scope hypothesis for sizes/hops/lengths beyond the bound; item values are opaque to the code."),
+ "C03": (True, "E2", "model_checking", E2,
+  "Breadth-first search over all histories of Stream/StreamTeeHub/tee operations (about 41 letters per stream handle, 11 per hub, up to 4 live handles) on six initial pools: unmerged to depth 3 (thorough 4), merged by (model state, wrapper signature) one level deeper. Every transition replays the history on fresh real objects, compares the result with an immutable-sequence model and then drains every live handle, so independence of copies / tee outputs / thub uses is checked under every interleaving of consumption.",
+  "Depth bound; alphabet of counts {None,-1,0,1,2,2.4,2.6,5,inf}; handles the contract forbids reusing are dead; no exact .5 ties."),
+ "C15": (True, "E2", "model_checking", E2,
+  "Closure search: breadth-first over every operation history of the real MultiKeyDict (5 keys x 4 values incl. 1 == 1.0, key tuples up to length 2; thorough 6 keys, tuples up to 3) and StrategyDict (4 names x 3 strategies; thorough 4 x 4) until no new canonical state appears, so every reachable state is visited and every operation applied from it; all observers and the three internal maps are compared with a reference model after each transition. The state count equals the closed-form number of reachable states.",
+  "Small key/value universes (behaviour depends only on equality of keys/values); names do not shadow StrategyDict attributes."),
+ "C16": (True, "E2", "model_checking", E2,
+  "Merged breadth-first search over add/next/add(negative) histories of the real Streamix (tie-free delta alphabet, <=3 live events, depth 6; thorough 8) plus exhaustive unmerged programs (k<=3 events x 9 deltas x 3 lengths x every non-decreasing insertion point, exact ties accepted either way; thorough k<=4), long non-dyadic accumulations for drift, and all ControlStream assign/read words up to length 8 (thorough 10); oracle is the statement (cumulative start times), not the algorithm.",
+  "Item values are opaque labels; adding after StopIteration is outside the contract; depth/size bounds."),
 }
 
 NOT_YET = "check not built yet in this session; see DESIGN.md section 4 for the planned model-checking harness"
